@@ -209,7 +209,7 @@ def run_order(params, prefix):
             return await repo.restore(path=target)
 
     x = dsched.run_one(lambda loop, sch: go(), prefix, horizon=6000, want_env=True)
-    out = {'points': x.points, 'err': None, 'viol': [], 'order': hash(tuple(store.calls))}
+    out = {'points': x.points, 'err': None, 'viol': [], 'order': explore.canon_order(store.calls)}
     tree = {p[len(str(target)):]: v[0] for p, v in W.read_tree(target).items()}
     shutil.rmtree(target, ignore_errors=True)
     if x.err is not None:
